@@ -6,7 +6,7 @@ import random
 import time
 
 from sim.core import COMPONENTS, EXIT_OK, EXIT_VIOLATION, REPO_SRC, VERIF, H, HarnessError, digest, jdump, log, write_evidence
-from sim.engine import Engine, load_known, match_known, write_replay
+from sim.engine import Engine, dump_digests, load_known, match_known, write_replay
 from sim.popgen import date_pool
 
 PROP = "C20"
@@ -61,6 +61,7 @@ def run_check(tier: str, seed: int, runs: int | None = None, parallel: int | Non
 
         total = T["runs"] + T["exhaustive_runs"]
         results = engine.map_runs(one, range(total), progress=max(8, total // 8))
+        dump_digests(PROP, results)
         cand = [i for i in range(total) if i >= T["exhaustive_runs"]]
         st = sorted(random.Random(H(seed, PROP, "selftest")).sample(cand, min(T["selftest"], len(cand))))
         again = engine.map_runs(lambda slot, j: one(engine.slots[(st[j] + 5) % len(engine.slots)], st[j])["log_digest"], range(len(st)))
